@@ -78,6 +78,7 @@ def run(ctx):
     _reduction_loop(ctx)
     from .c03 import explanation_configuration
     explanation_configuration(ctx, 'C18.R6')
+    derived_violation_flags(ctx, 'C18.R7')
 
     # ---- R2 ----------------------------------------------------------------------
     ctx.rule('C18.R2', 'each hint_sane= argument of enqueue_hint_child_sane and each HintDataError(…) argument is defined '
@@ -460,3 +461,26 @@ def _reduction_loop(ctx):
         F.isinstance_hook = saved_i
         F.stubs.clear()
         F.stubs.update(saved)
+
+
+def derived_violation_flags(ctx, RULE):
+    """Shared with C03.R10: the raise-or-warn flag of each kind of violation is derived from the option of that kind."""
+    import re
+    Q = 'beartype._conf.confmain'
+    m = ctx.repo.mod(Q)
+    fn = ctx.repo.find_def(Q, 'BeartypeConf.__new__')
+    ctx.rule(RULE, 'the violation_type family changes only the class of the signal, per kind of violation: each private flag '
+             '_is_violation_<kind>_warn that BeartypeConf.__new__ derives (it decides whether the wrapper raises or warns) is '
+             'computed from the option of the same kind (_violation_<kind>_type) and from no other option — a flag derived from '
+             'another kind\'s option raises a warning class or calls warn() with an exception class')
+    n = 0
+    for a in [x for x in ast.walk(fn) if isinstance(x, ast.Assign) and len(x.targets) == 1]:
+        t = a.targets[0]
+        mt = re.fullmatch(r'_is_violation_(\w+)_warn', t.attr) if isinstance(t, ast.Attribute) and dotted(t.value) == 'self' else None
+        if not mt:
+            continue
+        n += 1
+        used = sorted({x.attr for x in ast.walk(a.value) if isinstance(x, ast.Attribute) and dotted(x.value) == 'self'})
+        ctx.ob(RULE, f'derived-flag:{t.attr}', m.where(a), f'the flag is derived from _violation_{mt.group(1)}_type only',
+               used == [f'_violation_{mt.group(1)}_type'], f'derived from {used}')
+    ctx.floor(RULE, n, 3, 'derived raise-or-warn flags')
